@@ -61,8 +61,8 @@ def main():
         if not skip_tests:
             t0 = time.time()
             rc, txt = sh("/venv/bin/python -m pytest -q -p no:cacheprovider --timeout=900 "
-                         "-x -q 2>&1 | tail -5", cwd=wt, env=env)
-            out['tests'] = txt.strip().splitlines()[-1] if txt.strip() else ''
+                         "2>&1 | grep -E ' passed| failed|^FAILED' | tail -5", cwd=wt, env=env)
+            out['tests'] = ' ; '.join(txt.strip().splitlines())
             out['tests_s'] = round(time.time() - t0)
         env2 = dict(os.environ, VERIF_REPO=wt, VERIF_EVIDENCE_DIR=wt + '.evidence',
                     VERIF_FINDINGS_DIR=os.path.join(d, 'findings'))
